@@ -341,7 +341,7 @@ theorem tradeOut_ok {s s' : State} {sender rcpt : Addr} {inD outD : Denom} {maxI
 theorem doubleIn_ok {s s' : State} {sender rcpt : Addr} {inD outD : Denom} {inA minOut : Nat}
     (h : doubleIn s sender rcpt inD inA outD minOut = .ok s') :
     ∃ na nb k bought s1, LegIn s inD inA s.std na k ∧
-      Ledger s.bank s1.bank (singleSpec sender rcpt na inD s.std inA k) ∧ SameCfg s s1 ∧
+      Ledger s.bank s1.bank (singleSpec sender sender na inD s.std inA k) ∧ SameCfg s s1 ∧
       LegIn s1 s.std k outD nb bought ∧ minOut ≤ bought ∧
       Ledger s1.bank s'.bank (singleSpec sender rcpt nb s.std outD k bought) ∧ SameCfg s1 s' := by
   unfold doubleIn at h
@@ -370,7 +370,7 @@ theorem doubleIn_ok {s s' : State} {sender rcpt : Addr} {inD outD : Denom} {inA 
 theorem doubleOut_ok {s s' : State} {sender rcpt : Addr} {inD outD : Denom} {maxIn outA : Nat}
     (h : doubleOut s sender rcpt inD maxIn outD outA = .ok s') :
     ∃ na nb k sold s1, LegOut s outD outA s.std nb k ∧ LegOut s s.std k inD na sold ∧ sold ≤ maxIn ∧
-      Ledger s.bank s1.bank (singleSpec sender rcpt na inD s.std sold k) ∧ SameCfg s s1 ∧
+      Ledger s.bank s1.bank (singleSpec sender sender na inD s.std sold k) ∧ SameCfg s s1 ∧
       Ledger s1.bank s'.bank (singleSpec sender rcpt nb s.std outD k outA) ∧ SameCfg s1 s' := by
   unfold doubleOut at h
   split at h
